@@ -41,6 +41,11 @@ SPECS = [
     ("str", "t ~ z + a | a + z + a:A + b", {"z", "A"}, []),
     ("kw", {"first": "b + a + t", "second": ("a + b + b:A", "t:A + a + b:a")}, {"A"}, []),
 ]
+SPECS += [
+    # the same stateful call nested in DIFFERENT factor expressions of different parts: every part's spec carries the state it needs
+    ("str", "t ~ center(a) + b | {center(a) * b} + z", {"z"}, []),
+    ("kw", {"first": "scale(b) + t", "second": ("I(scale(b) + a)", "a:{scale(b) * 2}")}, set(), []),
+]
 SPEC_OPTIONS = {22: {"cluster_by": "numerical_factors"}, 23: {"cluster_by": "numerical_factors"}}
 
 
